@@ -712,3 +712,31 @@ Proof.
     apply nth_error_firstn_some in Hj as [Hj Hjl].
     destruct (HV _ _ Hj) as [_ HT']. unfold overlaps_b. rewrite (tiled_chrom _ _ _ _ HT' Hx). lia.
 Qed.
+
+(** whole chromosome (bare name, or both ends open): exactly the chromosome's span of the table *)
+Theorem extent_whole_chrom blocks i blk :
+  ValidBlocks blocks -> nth_error blocks i = Some blk ->
+  extent blocks i None None = Some (chrom_offset blocks i, chrom_offset blocks (S i)).
+Proof.
+  intros HV Hi. destruct (HV i blk Hi) as [Hne HT].
+  pose proof (tiled_len_pos _ _ _ HT Hne) as HL.
+  unfold extent, chromsizes.
+  rewrite (parse_region_complete _ i None None (chrom_len blk)); cbn [dflt]; try lia.
+  2:{ now rewrite nth_error_map, Hi. }
+  pose proof (extent_overlap blocks i blk 0 (chrom_len blk) HV Hi ltac:(lia) ltac:(lia)) as H.
+  destruct (region_to_extent blocks i 0 (chrom_len blk)) as [lo hi]. destruct H as (Hiff & Hlo & Hhi).
+  rewrite (chrom_offset_S _ _ _ Hi) in *. pose proof (chrom_offset_nonneg blocks i) as Hoff.
+  assert (Hlen : (0 < length blk)%nat) by (destruct blk; [congruence|cbn; lia]).
+  assert (Hall : forall j, (j < length blk)%nat -> lo <= chrom_offset blocks i + Z.of_nat j < hi).
+  { intros j Hj. destruct (nth_error blk j) as [x|] eqn:Hx; [|apply nth_error_None in Hx; lia].
+    pose proof (nth_error_table _ _ _ j Hi Hj) as Ht. rewrite Hx in Ht.
+    pose proof (proj2 (Hiff (Z.to_nat (chrom_offset blocks i) + j)%nat)) as Hk.
+    assert (Hin : In x blk) by (eapply nth_error_In; eauto).
+    pose proof (tiled_start_ge _ _ _ HT x Hin). pose proof (tiled_nonempty_width _ _ _ _ HT Hin).
+    pose proof (tiled_end_le_len _ _ _ HT x Hin).
+    assert (lo <= Z.of_nat (Z.to_nat (chrom_offset blocks i) + j) < hi).
+    { apply Hk. exists x. repeat split; auto; [apply (tiled_chrom _ _ _ _ HT Hin)|lia|lia]. }
+    lia. }
+  pose proof (Hall 0%nat Hlen). pose proof (Hall (length blk - 1)%nat ltac:(lia)).
+  unfold zlen in *. do 2 f_equal; lia.
+Qed.
